@@ -95,7 +95,9 @@ def draw_op(rng, name, fault_rate):
         return {"op": name, "i": i, "method": rng.choice(["window", "detrend", "filter", "trim"]), "width": rng.choice([0.1, 0.5, 1.0])}
     if name in ("edit_samples", "assign_samples"):
         return {"op": name, "i": i, "comp": rng.choice(["ns", "ew", "vt"]), "k": rng.randrange(1000),
-                "delta": rng.choice([1.0, -2.5, 1e6])}
+                "delta": rng.choice([1.0, -2.5, 1e6]),
+                # special but legal sample values (a clipped channel, a gap marker, a dead sensor)
+                "set": rng.choice([None] * 8 + ["inf", "-inf", "nan", "-0.0", "tiny", "huge"])}
     if name == "use":
         # read-only uses of the live recordings between the operations (none of them may change anything, and what
         # they leave behind inside the objects - memoised vectors, say - must not influence later operations)
@@ -391,7 +393,11 @@ def step(ctx, st, op, H):
         if o is not None:
             ts = o if isinstance(o, H.TimeSeries) else getattr(o, op["comp"])
             targets = [o]
-            if name == "edit_samples":
+            if name == "edit_samples" and op.get("set"):
+                ts.amplitude[op["k"] % ts.n_samples] = {"inf": np.inf, "-inf": -np.inf, "nan": np.nan, "-0.0": -0.0,
+                                                         "tiny": 5e-324, "huge": 1.7976931348623157e308}[op["set"]]
+                ctx.probe("special_sample_value")
+            elif name == "edit_samples":
                 ts.amplitude[op["k"] % ts.n_samples] += op["delta"]
             else:
                 ts.amplitude = np.array(ts.amplitude) * 0.5
